@@ -53,16 +53,40 @@ impl<K, V> FanoutMany<K, V> {
         r.entries@ =~= Seq::<(K, V)>::empty(), r.wf(),
 //@end
 
-// ASSUMED (listed): `remove` compares keys through `K: Borrow<Q>` + `Q: Eq`, which this Verus cannot specify for generic Q.
-//@fn server/src/sink/fanout_many.rs :: FanoutMany :: remove [trusted] [props=C01]
+// `remove` compares keys through `K: Borrow<Q>` + `Q: Eq`: the comparison itself is the assumed relation vborrow_eq (equality when
+// Q = K); the search loop and the swap_remove are verified.
+//@fn server/src/sink/fanout_many.rs :: FanoutMany :: remove [props=C01 C08]
     requires
         old(self).wf(),
     ensures
         final(self).wf(),
         forall|i: int| 0 <= i < final(self).entries@.len() ==> same(#[trigger] final(self).entries@[i], old(self).entries@),
-        forall|i: int| 0 <= i < final(self).entries@.len() ==> !vborrow_eq::<K, Q>((#[trigger] final(self).entries@[i]).0, k),
-        forall|j: int| 0 <= j < old(self).entries@.len() && !vborrow_eq::<K, Q>((#[trigger] old(self).entries@[j]).0, k) ==> same(old(self).entries@[j], final(self).entries@),
-        (r is None) ==> final(self).entries@ == old(self).entries@,
+        (r is Some) ==> exists|j: int| 0 <= j < old(self).entries@.len() && vborrow_eq::<K, Q>((#[trigger] old(self).entries@[j]).0, k) && r->Some_0 == old(self).entries@[j].1
+            && final(self).entries@ =~= old(self).entries@.update(j, old(self).entries@.last()).drop_last(),          // [C08.remove_takes_out_exactly_one_entry]
+        (r is None) ==> final(self).entries@ == old(self).entries@ && forall|j: int| 0 <= j < old(self).entries@.len() ==> !vborrow_eq::<K, Q>((#[trigger] old(self).entries@[j]).0, k),
+//@loop 1 iter=it
+        invariant
+            self.entries@ == old(self).entries@, old(self).wf(),
+            it.snapshot.start == 0, it.snapshot.end == old(self).entries@.len(),
+            forall|j: int| 0 <= j < it.index@ ==> !vborrow_eq::<K, Q>((#[trigger] self.entries@[j]).0, k),
+//@hint before "return Some(self.entries.swap_remove(i).1);"
+                proof {
+                    let o = old(self).entries@;
+                    let n = o.len() as int;
+                    let ii = i as int;
+                    let f = o.update(ii, o[n - 1]).drop_last();
+                    assert(vborrow_eq::<K, Q>(o[ii].0, k));
+                    assert forall|m: int| 0 <= m < f.len() implies same(#[trigger] f[m], o) by {
+                        if m == ii { assert(o[n - 1] == f[m]); } else { assert(o[m] == f[m]); }
+                    }
+                    assert(keys_distinct(f)) by {
+                        assert forall|a: int, b: int| 0 <= a < b < f.len() implies f[a].0 != f[b].0 by {
+                            let oa = if a == ii { n - 1 } else { a };
+                            let ob = if b == ii { n - 1 } else { b };
+                            assert(f[a] == o[oa] && f[b] == o[ob] && oa != ob);
+                        }
+                    }
+                }
 //@end
 
 //@fn server/src/sink/fanout_many.rs :: FanoutMany :: insert [props=C01 C08]
@@ -75,7 +99,32 @@ impl<K, V> FanoutMany<K, V> {
         forall|j: int| 0 <= j < old(self).entries@.len() && (#[trigger] old(self).entries@[j]).0 != k ==> same(old(self).entries@[j], final(self).entries@),              // [C08.others_untouched]
 //@hint before "self.entries.push"
         let ghost mid = self.entries@;
-        proof { vborrow_refl::<K>(); }
+        proof {
+            vborrow_refl::<K>();
+            // `remove` took out exactly the entry with key k (if any), so no remaining key equals k and keys stay distinct
+            let o = old(self).entries@;
+            assert forall|i: int| 0 <= i < mid.len() implies (#[trigger] mid[i]).0 != k && same(mid[i], o) by {
+                if ret is Some {
+                    let j = choose|j: int| 0 <= j < o.len() && vborrow_eq::<K, K>((#[trigger] o[j]).0, &k) && ret->Some_0 == o[j].1
+                        && mid =~= o.update(j, o.last()).drop_last();
+                    assert(o[j].0 == k);
+                    let oi = if i == j { o.len() - 1 } else { i };
+                    assert(mid[i] == o[oi] && oi != j);
+                } else {
+                    assert(!vborrow_eq::<K, K>(o[i].0, &k));
+                }
+            }
+            assert forall|j: int| 0 <= j < o.len() && (#[trigger] o[j]).0 != k implies same(o[j], mid) by {
+                if ret is Some {
+                    let jj = choose|jj: int| 0 <= jj < o.len() && vborrow_eq::<K, K>((#[trigger] o[jj]).0, &k) && ret->Some_0 == o[jj].1
+                        && mid =~= o.update(jj, o.last()).drop_last();
+                    assert(o[jj].0 == k);
+                    if j == o.len() - 1 { assert(mid[jj] == o[j]); } else { assert(mid[j] == o[j]); }
+                } else {
+                    assert(mid[j] == o[j]);
+                }
+            }
+        }
 //@hint before "=ret"
         proof {
             let fin = self.entries@;
